@@ -97,6 +97,29 @@ def run(ctx):
                                     "(a switch does not reach the factor it names)", {"op": "ray_weights_for_views", "switches": list(sw), "path": pth.name, "side": side},
                                     {"kind": "wrapper", "side": side})
                         break
+        # ---- the door of the full-time model: `scat_unshifted_transfer_functions` (and its legacy single-/multi-frequency wrappers)
+        #      yields, per view, conj(Q_i Q'_j S(theta_i - a, theta_j - a)) computed with the switches IT WAS GIVEN (all 16 subsets)
+        import arim.scat as scat_mod
+        sdh_obj = scat_mod.scat_factory("sdh", s["block"], 0.4e-3)
+        tx_d, rx_d = fixtures.pairs(rng, numel, "fmc")
+        a_d = float(rng.uniform(-1.0, 1.0))
+        few_views = dict(list(views.items())[:4])
+        for sw in itertools.product([True, False], repeat=4):
+            kw = dict(use_directivity=sw[0], use_transrefl=sw[1], use_beamspread=sw[2], use_attenuation=sw[3])
+            cjd = {"op": "scat_unshifted_transfer_functions", "switches": kw, "frequency": freq, "width": width, "scat_angle": a_d}
+            try:
+                rw_sw = bim.ray_weights_for_views(few_views, freq, probe_element_width=width, **kw)
+                got_all = list(bim.scat_unshifted_transfer_functions(few_views, tx_d, rx_d, freq, sdh_obj, probe_element_width=width, scat_angle=a_d, **kw))
+            except Exception as e:
+                ctx.violate(f"scat_unshifted_transfer_functions raised {type(e).__name__}: {str(e)[:80]} for switches {kw}", cjd, {"kind": "transfer_door"})
+                continue
+            ctx.count("transfer_function_door")
+            for (vname_, view_), (H, delays) in zip(few_views.items(), got_all):
+                wantH = np.conj(model.model_amplitudes_factory(tx_d, rx_d, view_, rw_sw, sdh_obj.as_angles_funcs(freq), scat_angle=a_d)[...])
+                if H.shape != wantH.shape + (1,) or not np.allclose(H[..., 0], wantH, rtol=1e-12, atol=0):
+                    ctx.violate(f"scat_unshifted_transfer_functions({kw}), view {vname_}: not conj(Q_i Q'_j S) with these switches "
+                                f"(max relative difference {np.abs(H[..., 0] - wantH).max() / (np.abs(wantH).max() + 1e-300):.2e})", {**cjd, "view": vname_}, {"kind": "transfer_door"})
+                    break
         # ---- amplitudes
         rw = bim.ray_weights_for_views(views, freq, probe_element_width=width)
         names = list(views)
